@@ -297,7 +297,7 @@ def run(ctx):
     cs = []
     for c in corpus():
         cs.append(Case(c.threads, c.queue, c.progs, c.bodies, policy="n"))
-        for k in range(6 if ctx.quick else 40):
+        for k in range(12 if ctx.quick else 60):
             cs.append(Case(c.threads, c.queue, c.progs, c.bodies, policy="r", seed=rng.getrandbits(40), stay=rng.choice([0, 30, 60, 85])))
     oks, bads, xs, err = runner.run(cs, "corpus")
     tally(ctx, oks)
@@ -307,7 +307,7 @@ def run(ctx):
     if ctx.violations:
         return
     # 2. seeded random configurations x random schedules
-    n = 2500 if ctx.quick else 30000
+    n = 12000 if ctx.quick else 60000
     cs = []
     hist = {}
     for i in range(n):
@@ -327,15 +327,16 @@ def run(ctx):
     ex = []
     small = corpus()
     if ctx.quick:
-        picks = [(small[0], 1, 1500), (small[2], 1, 1500), (small[7], 1, 1500)]
+        picks = [(c, 1, 4000) for c in small] + [(small[0], 2, 4000), (small[1], 2, 4000), (small[3], 2, 4000), (small[9], 2, 4000)]
     else:
-        picks = [(c, 2, 60000) for c in small] + [(gen_case(rng, max_ops=4), 2, 30000) for _ in range(25)]
+        picks = [(c, 2, 60000) for c in small] + [(c, 3, 40000) for c in small[:4]] + [(gen_case(rng, max_ops=4), 2, 30000) for _ in range(25)]
     for c, bound, mx in picks:
         ex.append(Case(c.threads, c.queue, c.progs, c.bodies, policy="n", explore=bound, maxruns=mx))
     oks, bads, xs, err = runner.run(ex, "explore", timeout=1500)
     tally(ctx, oks)
     report(ctx, runner, bads, "explore")
     ctx.notes["explore"] = xs[:60]
+    ctx.notes["explore_exhausted"] = sum(1 for x in xs if "exhausted=1" in x)
     if ctx.violations:
         return
     ctx.cov["exhaustive"] = False
@@ -352,6 +353,13 @@ def run(ctx):
         report(ctx, ra, bads, "asan")
         if "ERROR: AddressSanitizer" in err or "runtime error:" in err:
             ctx.notes["asan_stderr"] = err[-3000:]
+    if not ctx.quick:
+        # independent re-check of the compiled theory by coqchk (kernel re-validation, lists axioms)
+        rc, out, err = core.sh(["timeout", "1200", "coqchk", "-silent", "-o", "-Q", ".", "ZV", "ZV.Props.Properties_C12"], cwd=core.COQ)
+        txt = out + err
+        ctx.notes["coqchk"] = " ".join(txt.split())[-400:]
+        if rc != 0 or "Axioms: <none>" not in " ".join(txt.split()):
+            ctx.violation(dict(kind="coqchk", rc=rc, output=txt[-2000:]), what="coqchk does not validate Properties_C12 axiom-free", no_input=True)
     ctx.assumptions += [
         "the deterministic scheduler (harness/sched) implements POSIX mutex/condition semantics without spurious wake-ups; "
         "real pthread behaviour, memory-model effects and data races as such are outside the model",
